@@ -13,7 +13,7 @@ from .. import core, tlc, cli
 from ..enc import blist
 from .. import world as W
 
-PARAMS = {'DEF': (11, 'ATGAC'), 'K1': (5, 'AT'), 'K2': (6, 'AT'), 'K3': (5, 'AC')}
+PARAMS = {'DEF': (11, 'ATGAC'), 'K1': (5, 'AT'), 'K2': (6, 'AT'), 'K3': (5, 'AC'), 'K4': (5, 'GT')}     # K4's prefix = revcomp(K3's)
 
 
 def make_genome(rng, base=None):
@@ -22,6 +22,7 @@ def make_genome(rng, base=None):
     for _ in range(5):
         blocks.append('ATGAC' + W.rand_seq(rng, 11) + W.rand_seq(rng, 3))
         blocks.append('AC' + W.rand_seq(rng, 7))
+        blocks.append('GT' + W.rand_seq(rng, 6))
         blocks.append('GTCAT'[::1] + W.rand_seq(rng, 4))
     s = ''.join(blocks)
     return W.mutate(rng, base, 0.04) if base else s
@@ -179,6 +180,4 @@ def run(ctx):
                         'expected outcomes come from the TLC generator; on success cells are recomputed by TLC from the sequences']
 
 
-def replay(ctx, scen):
-    print('C14 rows are re-run by the check itself; run ./check C14 --tier quick (row is in the replay file)')
-    return True
+replay = core.RERUN
